@@ -169,6 +169,7 @@ def run_check(mod, tier, seed):
     # ---- (T)+(S) correspondence and oracle ---------------------------------------------------
     rep = Report()
     infra = None
+    crashed = None
     if not ok:
         ctx.oracle_only = True  # no driver: correspondence cannot run; oracle still can
     try:
@@ -177,7 +178,11 @@ def run_check(mod, tier, seed):
     except lean_bridge.subprocess.TimeoutExpired as e:
         infra = f'timeout: {e}'
     except Exception as e:
-        infra = 'harness error: ' + ''.join(traceback.format_exception(type(e), e, e.__traceback__))[-3000:]
+        tb = ''.join(traceback.format_exception(type(e), e, e.__traceback__))[-3000:]
+        if _is_infrastructure(e):
+            infra = 'harness error: ' + tb
+        else:
+            crashed = tb
 
     known = [k for k in load_known() if k['property'] == pid and k.get('status') == 'open']
     known_keys = {k['key']: k for k in known}
@@ -192,6 +197,14 @@ def run_check(mod, tier, seed):
         # could not digest a malformed object the changed code handed back): the violations found stand
         rep.notes.append('harness stopped early: ' + infra[-600:])
         infra = None
+    if crashed and new_viol:
+        rep.notes.append('harness stopped early: ' + crashed[-600:])
+    elif crashed:
+        # No build tool, driver process or OS call failed: the harness could not digest what the code under test handed
+        # back (a value of a shape the reference tree never produces).  The correspondence stream that fell over "no longer
+        # checks" (brief: a broken correspondence) -- recorded as such, then the extended search looks for a failing input.
+        rep.disagree('harness-exception', {'traceback': crashed[-1500:]}, 'stream completes (as on the reference tree)',
+                     'exception while comparing / judging the implementation')
     status = 0
     replay_path = None
     if infra:
@@ -262,6 +275,18 @@ def run_check(mod, tier, seed):
           f'({len(rep.nontrivial)} distinct non-trivial), disagreements {len(rep.disagreements)}, '
           f'violations {len(new_viol)}, known {len(known_hit)}, {ev["wall_s"]}s -> exit {status}', flush=True)
     return status
+
+
+def _is_infrastructure(e):
+    """Failures of the machinery itself (build tools, the driver process, the OS, memory, imports) as opposed to the
+    harness meeting an implementation answer it cannot interpret."""
+    import subprocess
+    if isinstance(e, (OSError, MemoryError, ImportError, subprocess.SubprocessError, EOFError)):
+        return True
+    if isinstance(e, RuntimeError) and str(e).startswith('driver '):
+        return True
+    name = type(e).__name__
+    return name in ('BrokenProcessPool', 'PicklingError', 'UnpicklingError', 'RecursionError')
 
 
 def _run_corpus(mod, ctx, rep):
